@@ -105,8 +105,12 @@ pub struct RecCollector {
     aliases: Mutex<HashMap<u64, u64>>, // handle id -> root span id
     /// called when the collector is destroyed on a harness worker thread (a collector that emits while it is dropped)
     pub drop_hook: Option<fn()>,
+    /// called from inside `event` when the harness armed REENTER
+    pub reenter_hook: Option<fn()>,
 }
 
+/// armed by the harness: the next `event` callback of a RecCollector with a `reenter_hook` calls it (a re-entrant emission)
+pub static REENTER: AtomicBool = AtomicBool::new(false);
 /// armed by the harness: the next `event` callback of any RecCollector panics after logging
 pub static BOOM: AtomicBool = AtomicBool::new(false);
 /// how often a `drop_hook` ran
@@ -141,6 +145,7 @@ impl RecCollector {
                 hint_cell: Arc::new(std::sync::atomic::AtomicU64::new(99)),
                 aliases: Mutex::new(HashMap::new()),
                 drop_hook: None,
+                reenter_hook: None,
             },
             flag,
         )
@@ -234,6 +239,12 @@ impl Collect for RecCollector {
     fn event(&self, e: &Event<'_>) {
         let m = e.metadata();
         self.push(json!({"col": self.id, "call": "event", "lvl": rank(m.level()), "tgt": m.target(), "name": m.name(), "th": vt()}));
+        // a collector that itself emits from inside its callback (once, when the harness arms it)
+        if REENTER.swap(false, Ordering::SeqCst) {
+            if let Some(h) = self.reenter_hook {
+                h();
+            }
+        }
         // a collector whose callback panics (once, when the harness arms it); the panic is caught by the emitting code
         if BOOM.swap(false, Ordering::SeqCst) {
             panic!("collector callback panics");
